@@ -172,6 +172,13 @@ class OdxLinkDatabase:
     def __init__(self) -> None:
         self._db: Dict[OdxDocFragment, Dict[str, Any]] = {}
 
+    def __copy__(self) -> "OdxLinkDatabase":
+        # the per-fragment dictionaries must be copied as well,
+        # otherwise updating the copy modifies the original
+        result = OdxLinkDatabase()
+        result._db = {doc_frag: objs.copy() for doc_frag, objs in self._db.items()}
+        return result
+
     @overload
     def resolve(self, ref: OdxLinkRef, expected_type: None = None) -> Any:
         ...
